@@ -250,6 +250,10 @@ pub struct Ctx {
     replay_done: bool,
     /// minimum number of distinct non-trivial cases for the run to count (else exit 2)
     pub floor: u64,
+    /// failure signatures starting with one of these prefixes are harness/infrastructure errors:
+    /// they make the run inconclusive (exit 2) instead of being reported as violations
+    /// (empty by default; e.g. engine `sim` uses "harness:")
+    pub soft_prefixes: Vec<String>,
 }
 
 impl Ctx {
@@ -281,6 +285,7 @@ impl Ctx {
             replay_case,
             replay_done: false,
             floor: 2,
+            soft_prefixes: vec![],
         }
     }
 
@@ -341,6 +346,13 @@ impl Ctx {
     /// Report a failure found by `sub` on `case`. Known findings are printed once and do not
     /// fail the run; anything else writes a replay file and prints a VIOLATION line.
     pub fn report(&mut self, sub: &str, fail: &Fail, case: Value) {
+        if self.soft_prefixes.iter().any(|p| fail.sig.starts_with(p.as_str())) {
+            let m = format!("{sub}: {}: {}", fail.sig, fail.msg.chars().take(600).collect::<String>());
+            if self.inconclusive.len() < 20 {
+                self.inconclusive(m);
+            }
+            return;
+        }
         if let Some(what) = self.known.get(&self.args.prop, &fail.sig) {
             let e = self
                 .known_hits
